@@ -34,3 +34,8 @@ package binutils
 //@   callsite addr2Liner.addrInfo based: f.baseErr == nil && $arg1 == addr
 //@ func addr2Liner.addrInfo nosafety
 //@   callsite addr2LinerNM.addrInfo runtime_addr: $arg1 == addr
+// fileNM.SourceLine: the nm symbol table is built only after the lazy base computation has run (it is rebased with the
+// base computed from the first sample address), and only on the no-error path
+//@ func fileNM.SourceLine nosafety
+//@   callsite newAddr2LinerNM after_base: aftercall("Once.Do", true) && f.baseErr == nil && $arg2 == f.base
+//@   callsite addr2LinerNM.addrInfo based: f.baseErr == nil && $arg1 == addr
